@@ -35,6 +35,8 @@ def run(ctx):
     jobs = []
     for cls in CLASSES:
         for b in me.bases(cls):
+            if b.endswith("_nano"):
+                continue        # the transformations below are sized for unit-scale bases; scale covariance is applied by the check itself
             trs = []
             for pl in palette(6, ctx.tier):
                 trs.append((float(pl.s), np.array(fl(pl.R)), np.array(fl(pl.t)), pl.tags()))
